@@ -6,7 +6,8 @@ The development is split over `Proofs/Client*.lean`:
 * `ClientSpec`   – the specification automaton `scan` over traces (independent of the model);
 * `ClientInv`    – the invariant `Mid c r ph` (connector / connections / queue / ghost / trace);
 * `ClientTr`     – how each event moves the automaton and keeps it related to the state;
-* `ClientConnector`, `ClientClose`, `ClientTasks`, `ClientIter`, `ClientOps` – preservation of `Mid`
+* `ClientConnector`, `ClientClose`, `ClientHook` (the user's connection callback: operations performed inside
+  the UP / DOWN report), `ClientTasks`, `ClientIter`, `ClientOps` – preservation of `Mid`
   by every function of the model, by one loop iteration, by every user operation inside the scope
   guard `okIn`; `reach_bnd`: the invariant holds after every guarded history;
 * `ClientTrace`  – what a legal trace means in counts and per-cycle counters;
@@ -145,6 +146,23 @@ theorem bnd_silence {pre post : List Ev} {e : Ev} (h : c.trace = pre ++ e :: pos
     · cases h2
   | _ => rfl
 
+/-- `connection()` read inside the callback that reports connection `k` (UP or DOWN) is that connection, and `k`
+has been reported UP before -/
+theorem bnd_query {pre post : List Ev} {k : Nat} {seen : Option Nat} (h : c.trace = pre ++ .query k seen :: post) :
+    seen = some k ∧ Ev.up k ∈ pre := by
+  obtain ⟨s, hs, _⟩ := bnd_scan hb
+  rw [h] at hs
+  obtain ⟨s1, s2, h1, h2⟩ := scan_split hs
+  have hcnt := cnt_scan h1
+  simp only [specStep] at h2
+  split at h2
+  · rename_i hc
+    refine ⟨hc.1, ?_⟩
+    apply List.count_pos_iff.mp
+    rw [hcnt.up k]
+    rcases hc.2 with hp | hp <;> simp [Spec.has, hp, b2n, Phase.wasUp]
+  · cases h2
+
 end
 
 /-! ### model-level consequences -/
@@ -173,41 +191,82 @@ theorem restart_trace (c : C) :
   dsimp only at ht
   exact ⟨tail, by rw [ht]; simp⟩
 
+theorem hookOp_connection (c : C) (j : Nat) (op : HookOp) : (hookOp c j op).connection = c.connection := by
+  cases op with
+  | disconnect =>
+    show (userDisconnect c).connection = _
+    unfold userDisconnect connShutdown
+    simp only
+    repeat' split
+    all_goals first | rfl | assumption | (rename_i h; exact h.symm)
+  | stop =>
+    show (userStop c .loop).connection = _
+    unfold userStop connectorStop
+    simp only [stopDispatch]
+    rfl
+  | connect =>
+    show (userConnect c .loop).connection = _
+    unfold userConnect
+    simp only [startDispatch]
+    exact startCycle_connection _
+  | query => rfl
+
+theorem runHookDown_connection (c : C) (j : Nat) : (runHookDown c j).connection = c.connection := by
+  unfold runHookDown
+  repeat' split
+  all_goals first | rfl | exact hookOp_connection _ _ _
+
+/-- `handleClose` of the client's connection: DOWN, the user's callback (`downCb c k`: the state when it returns),
+then `TcpClient::removeConnection`, which looks at `retry_ && connect_` as they are then -/
 theorem handleClose_client_eq (c : C) (r : List Task) (ph : Bool) (hi : Mid c r ph) (k : Nat) (x : ConnRec)
-    (hx : findIn c.conns k = some x) (hst : x.st ≠ .disconnected) (hcb : x.closeCb = .client) :
+    (hx : findIn c.conns k = some x) (hst : x.st ≠ .disconnected) (hcb : x.closeCb = .client) (hch : c.chan = none) :
     handleClose c k =
-      if reconnects c.retry c.tConnect then
-        restart { c with conns := c.conns.map (updRec k goDown), trace := c.trace ++ [.down k], connection := none,
-                         pending := c.pending ++ [.connectDestroyed k] }
-      else
-        { c with conns := c.conns.map (updRec k goDown), trace := c.trace ++ [.down k], connection := none,
-                 pending := c.pending ++ [.connectDestroyed k] } := by
+      if reconnects (downCb c k).retry (downCb c k).tConnect then restart (afterDown (downCb c k) k)
+      else afterDown (downCb c k) k := by
   obtain ⟨hxm, hxs⟩ := findIn_some hx
   obtain ⟨hal, hcn⟩ := hi.c6 x hxm hst hcb
   rw [hxs] at hcn
-  unfold handleClose
-  simp only [findConn_eq, hx, Option.map_some, Option.getD_some, hcb]
-  rw [if_neg (by simp [updConn_eq, hal]), if_neg (by simp [updConn_eq, hcn])]
+  have hm := handleClose_mid c r ph hi k x hx hst (fun _ => hch)
+  have hg := runHookDown_grow (downState c k) k
+  have hc2 := runHookDown_connection (downState c k) k
+  rw [handleClose_eq] at hm ⊢
+  simp only [findConn_eq, hx, Option.map_some, Option.getD_some, hcb] at hm ⊢
+  unfold downCb
+  generalize runHookDown (downState c k) k = c2 at hm hg hc2 ⊢
+  have hnd : c2.dead = false := by
+    cases h : c2.dead
+    · rfl
+    · rw [if_pos h] at hm; exact absurd hm.notDead (by rw [h]; simp)
+  rw [if_neg (by rw [hnd]; exact Bool.false_ne_true)]
+  unfold removeConn
+  rw [if_neg (by rw [hg.alive]; simp [downState, hal]), if_neg (by rw [hc2]; simp [downState, hcn])]
   rfl
 
-/-- **what `TcpClient::removeConnection` does when the established connection goes down** -/
+/-- **what `TcpClient::removeConnection` does when the established connection goes down**: with `downCb c k` the
+state in which the user's DOWN callback returned -/
 theorem handleClose_client_trace (c : C) (r : List Task) (ph : Bool) (hi : Mid c r ph) (k : Nat) (x : ConnRec)
-    (hx : findIn c.conns k = some x) (hst : x.st ≠ .disconnected) (hcb : x.closeCb = .client) :
-    (c.retry = true ∧ c.tConnect = true →
-      ∃ tail, (handleClose c k).trace = c.trace ++ [.down k, .ghost .cycle, .sockCreated c.nsock, .attempt c.nsock c.now] ++ tail) ∧
-    (¬ (c.retry = true ∧ c.tConnect = true) → (handleClose c k).trace = c.trace ++ [.down k] ∧ (handleClose c k).nsock = c.nsock) := by
-  rw [handleClose_client_eq c r ph hi k x hx hst hcb]
+    (hx : findIn c.conns k = some x) (hst : x.st ≠ .disconnected) (hcb : x.closeCb = .client) (hch : c.chan = none) :
+    ((downCb c k).retry = true ∧ (downCb c k).tConnect = true →
+      ∃ tail, (handleClose c k).trace = (downCb c k).trace ++
+        [.ghost .cycle, .sockCreated (downCb c k).nsock, .attempt (downCb c k).nsock (downCb c k).now] ++ tail) ∧
+    (¬ ((downCb c k).retry = true ∧ (downCb c k).tConnect = true) →
+      (handleClose c k).trace = (downCb c k).trace ∧ (handleClose c k).nsock = (downCb c k).nsock) := by
+  rw [handleClose_client_eq c r ph hi k x hx hst hcb hch]
+  generalize downCb c k = c2
   constructor
   · intro hre
     rw [if_pos (by simpa [reconnects] using hre)]
-    obtain ⟨tail, ht⟩ := restart_trace
-      ({ c with conns := c.conns.map (updRec k goDown), trace := c.trace ++ [.down k], connection := none,
-                pending := c.pending ++ [.connectDestroyed k] } : C)
-    dsimp only at ht
-    exact ⟨tail, by rw [ht]; simp⟩
+    obtain ⟨tail, ht⟩ := restart_trace (afterDown c2 k)
+    exact ⟨tail, by rw [ht]; simp [afterDown]⟩
   · intro hre
     rw [if_neg (by simpa [reconnects] using hre)]
     exact ⟨rfl, rfl⟩
+
+/-- the DOWN callback without a registered operation does nothing -/
+theorem runHookDown_none (c : C) (k : Nat) (h : c.hooksDown = []) : runHookDown c k = c := by
+  unfold runHookDown
+  rw [h]
+  split <;> rfl
 
 /-- `Connector::retry` arms the timer `specDelay nretry` ms ahead and records it -/
 theorem retry_arms (c : C) (k : Nat) (hcc : c.cConnect = true) (hd : c.delay = specDelay c.nretry) :
@@ -230,7 +289,7 @@ theorem fireTimers_not_due (c : C) (r : List Task) (ph : Bool) (hi : Mid c r ph)
   have hm1 : Mid ({ c with timers := c.timers.filter (fun t => decide (¬ t.1 ≤ c.now)) } : C) r ph := by
     have hsub : ∀ t ∈ c.timers.filter (fun t => decide (¬ t.1 ≤ c.now)), t ∈ c.timers := fun t ht => (List.mem_filter.mp ht).1
     have hsplit := nRetry_split c.timers c.now
-    obtain ⟨notDead, a1, a2, a3, a4, a5, a6, a7, a8, a9, a10, a11, a13, a14, a15, a16, s1, c1, c2, c3, c4, c5, c6, c7, c8, c9, c10, g1, g3, t1⟩ := hi
+    obtain ⟨notDead, a1, a2, a3, a4, a5, a6, a7, a8, a9, a10, a11, a13, a14, a15, a16, s1, c1, c2, c3, c4, c5, c6, c7, c8, c9, c10, g1, g3, h1, t1⟩ := hi
     constructor
     all_goals mid_auto3
   rw [fireTimers_eq]
@@ -409,6 +468,133 @@ theorem iter_no_conn_leak (c : C) (hb : Bnd c) (a : List Src) :
     rw [hid] at hd ⊢
     simp only [dyingP, hd, Bool.not_false, Bool.true_and, Bool.not_eq_true', Bool.not_eq_false] at hdy
     exact hdy
+
+/-! ### only the dispatch of the connector's channel runs the UP callback -/
+
+theorem retry_hooksUp (c : C) (k : Nat) : (retry c k).hooksUp = c.hooksUp := (retry_keeps c k).2.2.2.1
+theorem restart_hooksUp (c : C) : (restart c).hooksUp = c.hooksUp := by
+  unfold restart; exact (startInLoop_keeps _).2.2.2.1
+
+theorem stopInLoop_hooksUp (c : C) : (stopInLoop c).hooksUp = c.hooksUp := by
+  unfold stopInLoop die
+  repeat' split
+  all_goals first | rfl | exact retry_hooksUp _ _
+
+theorem runHookDown_hooksUp (c : C) (k : Nat) : (runHookDown c k).hooksUp = c.hooksUp := by
+  unfold runHookDown
+  split
+  · rename_i hal
+    split
+    · rfl
+    · rename_i op rest _
+      exact (hookOp_grow ({ c with hooksDown := rest } : C) k op hal).2
+  · rfl
+
+theorem handleClose_hooksUp (c : C) (k : Nat) : (handleClose c k).hooksUp = c.hooksUp := by
+  have h2 := runHookDown_hooksUp (downState c k) k
+  rw [handleClose_eq]
+  simp only
+  generalize runHookDown (downState c k) k = c2 at h2
+  have h2 : c2.hooksUp = c.hooksUp := h2
+  split
+  · exact h2
+  · split
+    · exact h2
+    · unfold removeConn die
+      simp only
+      repeat' split
+      all_goals first | exact h2 | (rw [restart_hooksUp]; exact h2)
+
+theorem runTask_hooksUp (c : C) (t : Task) : (runTask c t).hooksUp = c.hooksUp := by
+  cases t with
+  | startCycle => unfold runTask die; simp only; split; exact (startCycle_keeps c).2.2.2.1; rfl
+  | stopInLoop => unfold runTask die; simp only; split; exact stopInLoop_hooksUp c; rfl
+  | resetChannel =>
+    unfold runTask resetChannel die
+    simp only
+    repeat' split
+    all_goals rfl
+  | connectDestroyed k =>
+    unfold runTask connectDestroyed
+    simp only
+    repeat' split
+    all_goals first | rfl | exact runHookDown_hooksUp _ _
+  | shutdownInLoop k =>
+    unfold runTask emit die
+    simp only
+    repeat' split
+    all_goals rfl
+  | forceCloseInLoop k => unfold runTask; simp only; split; exact handleClose_hooksUp c k; rfl
+  | setCloseCb k => rfl
+  | addTimer d kd => rfl
+
+theorem task_fold_hooksUp (rest : List Task) (c : C) :
+    (rest.foldl (fun (c : C) t => if c.dead then c else runTask c t) c).hooksUp = c.hooksUp := by
+  induction rest generalizing c with
+  | nil => rfl
+  | cons t rest ih =>
+    rw [List.foldl_cons, ih]
+    split
+    · rfl
+    · exact runTask_hooksUp c t
+
+theorem reap_hooksUp (c : C) : (reap c).hooksUp = c.hooksUp := by
+  rw [reap_eq]; unfold die; repeat' split
+  all_goals rfl
+
+/-- **`disconnect()` from inside the UP callback**: if `disconnect()` is the next operation registered for the UP
+callback and the callback runs in this iteration, then the iteration reports a connection UP and performs
+`shutdown(SHUT_WR)` on that very connection - whatever else the iteration has to do -/
+theorem iter_callback_disconnect (c : C) (hb : Bnd c) (rest : List HookOp) (hh : c.hooksUp = .disconnect :: rest)
+    (active : List Src) (hf : (iter c active).hooksUp ≠ c.hooksUp) :
+    ∃ k d0 d1, (iter c active).trace = c.trace ++ d0 ++ d1 ∧ Ev.up k ∈ d0 ∧ Ev.shutdownWr k ∈ d1 := by
+  obtain ⟨c1, c2, hp⟩ := iter_parts c active hb
+  have h2 : c2.hooksUp = c1.hooksUp := by rw [hp.e2, task_fold_hooksUp]
+  have hne : c1.hooksUp ≠ c.hooksUp := by
+    intro e; apply hf; rw [hp.e, reap_hooksUp]; exact h2.trans e
+  obtain ⟨k, u1, u2, u3, x, u4, u5⟩ := hp.g1.hup rest hh hne
+  obtain ⟨d0, hd0⟩ := hp.g1.tr
+  obtain ⟨d1, hd1, hm1⟩ := task_fold_shutdown k c1.pending _ hp.ms u3 ⟨x, u4, u5⟩
+  rw [← hp.e2] at hd1
+  have hr : ∃ d2, (reap { c2 with batch := [] }).trace = c2.trace ++ d2 := by
+    rw [reap_eq2 hp.m3]; exact ⟨_, rfl⟩
+  obtain ⟨d2, hd2⟩ := hr
+  have e0 : c1.trace = c.trace ++ d0 := hd0.symm
+  refine ⟨k, d0, d1 ++ d2, ?_, ?_, List.mem_append_left _ hm1⟩
+  · rw [hp.e, hd2, hd1]
+    show (c1.trace ++ d1) ++ d2 = _
+    rw [e0]; simp [List.append_assoc]
+  · rw [e0] at u1
+    rcases List.mem_append.mp u1 with h | h
+    · exact absurd h u2
+    · exact h
+
+/-- an UP reported in an iteration runs the user's callback: it consumes the next registered operation -/
+theorem iter_up_runs_callback (c : C) (hb : Bnd c) (active : List Src) (k : Nat)
+    (hk : Ev.up k ∈ (iter c active).trace) (hnk : Ev.up k ∉ c.trace) :
+    c.hooksUp = [] ∨ (iter c active).hooksUp ≠ c.hooksUp := by
+  obtain ⟨c1, c2, hp⟩ := iter_parts c active hb
+  have h2 : c2.hooksUp = c1.hooksUp := by rw [hp.e2, task_fold_hooksUp]
+  have hfin : (iter c active).hooksUp = c1.hooksUp := by rw [hp.e, reap_hooksUp]; exact h2
+  rw [hfin]
+  by_cases hk1 : Ev.up k ∈ c1.trace
+  · exact hp.g1.upq k hk1 hnk
+  · -- reported after the dispatch phase: impossible unless no operation was left
+    have hg2 := task_fold_grow c1.pending _ hp.ms
+    rw [← hp.e2] at hg2
+    have hk2 : Ev.up k ∈ c2.trace := by
+      rw [hp.e, reap_eq2 hp.m3] at hk
+      rcases List.mem_append.mp hk with h | h
+      · exact h
+      · simp at h
+    rcases hg2.upq k hk2 hk1 with h | h
+    · by_cases he : c.hooksUp = []
+      · exact .inl he
+      · right
+        intro e
+        have : c1.hooksUp = [] := h
+        rw [this] at e; exact he e.symm
+    · exact absurd h2 h
 
 /-! ### the ghost marks are the user's calls -/
 
